@@ -652,7 +652,13 @@ func runParse(c *ctx, prop string) error {
 			c.res.Fail(f)
 		}
 		if yerr != nil {
-			c.res.Fail(core.OracleFailure{What: "YAML marshalling of a parsed pipeline fails", Input: desc, Got: yerr.Error()})
+			f := core.OracleFailure{What: "YAML marshalling of a parsed pipeline fails", Input: desc, Got: yerr.Error()}
+			if yamlLegExcluded(dump.Pipeline(p)) {
+				if id, ok := c.known.has("yaml-emitter-leading-whitespace-multiline"); ok {
+					f.Known = id
+				}
+			}
+			c.res.Fail(f)
 		}
 		if jerr != nil || yerr != nil {
 			continue
@@ -1361,7 +1367,10 @@ func c13ByteLevel(c *ctx, rng *core.Rand, shards []*core.Session) {
 		if jerr != nil && !strings.Contains(jerr.Error(), "unsupported value") {
 			c.res.Fail(core.OracleFailure{What: "JSON marshalling fails after a usable parse (mutated document)", Input: desc, Got: jerr.Error()})
 		}
-		if yerr != nil {
+		if yerr != nil && yamlLegExcluded(dump.Pipeline(r.p)) && func() bool { _, ok := c.known.has("yaml-emitter-leading-whitespace-multiline"); return ok }() {
+			id, _ := c.known.has("yaml-emitter-leading-whitespace-multiline")
+			c.res.Fail(core.OracleFailure{What: "YAML marshalling fails after a usable parse (mutated document)", Input: desc, Got: yerr.Error(), Known: id})
+		} else if yerr != nil {
 			c.res.Fail(core.OracleFailure{What: "YAML marshalling fails after a usable parse (mutated document)", Input: desc, Got: yerr.Error()})
 		}
 	}
